@@ -708,7 +708,8 @@ static std::vector<json> shrink_ops(const json& j) {
 
 static std::optional<vf::Property>
 lookup(const std::string& id, const std::string& variant) {
-    if (id != "C18" && !(id == "C14" && variant == "catalogs")) {
+    if (id != "C18" &&
+        !((id == "C14" || id == "C07") && variant == "catalogs")) {
         return std::nullopt;
     }
     vf::Property p;
